@@ -386,6 +386,12 @@ def r11(ctx, R):
         src = [ast.unparse(s) for f2 in ci.methods.values() if f2.name not in ('__init__', fn.name) for s in ast.walk(f2) if isinstance(s, ast.Assign) and ast.unparse(s.targets[0]) == val]
         ok = len(src) >= 1 and all('restarts_in_a_row' in x and 'step.status' in x for x in src)
         R.check(ok, f'{ci.name} :: {val} is remembered from the status of the step the solution belongs to', f'{m.relpath}:{ci.name}', f"{val} = step.status.get('restarts_in_a_row', 0) in post_step", src)
+    # the time remembered together with the generation is the END time of the step whose solution is compared in post_run
+    rel = 'pySDC/implementations/hooks/log_errors.py'
+    ps = repo.func(rel, 'LogGlobalErrorPostRun.post_step')
+    tl = [ast.unparse(s_.value) for s_ in ast.walk(ps) if isinstance(s_, ast.Assign) and ast.unparse(s_.targets[0]) == 'self.t_last_solution']
+    R.fn(f'{rel}:LogGlobalErrorPostRun.post_step')
+    R.check(tl in (['step.levels[0].time + step.levels[0].dt'], ['step.levels[0].dt + step.levels[0].time'], ['step.time + step.dt'], ['step.dt + step.time']), 'LogGlobalErrorPostRun.post_step :: the remembered time is the end of the step (time + dt of level 0)', f'{rel}:LogGlobalErrorPostRun.post_step', 'self.t_last_solution = step.levels[0].time + step.levels[0].dt', tl)
     if not n:
         raise AnalysisError('C14.R11: the confirmed override site (LogGlobalErrorPostRun.post_run) not found')
 
